@@ -158,7 +158,7 @@ impl http::TryFromHeaderValue for Range {
 
 fn parse_u64_full(s: &[u8]) -> Option<u64> {
     match u64::from_radix_10_checked(s) {
-        (Some(x), pos) if pos == s.len() => Some(x),
+        (Some(x), pos) if pos > 0 && pos == s.len() => Some(x),
         _ => None,
     }
 }
